@@ -293,6 +293,12 @@ def r4(p, rep):
             delegation = isinstance(par, ast.Attribute) and par.attr in ("__enter__", "__exit__") and f.name == par.attr
             returned = isinstance(par, ast.Return) and f in factories
             if isinstance(par, ast.Assign) and len(par.targets) == 1 and isinstance(par.targets[0], ast.Name):
+                # `cm = CM(...); return cm`: a factory written in two steps
+                nm_ = par.targets[0].id
+                loads_ = [x for x in walk_no_nested(f.node) if isinstance(x, ast.Name) and x.id == nm_ and isinstance(x.ctx, ast.Load)]
+                if loads_ and all(isinstance(getattr(x, "_parent", None), ast.Return) for x in loads_):
+                    returned = True
+            if isinstance(par, ast.Assign) and len(par.targets) == 1 and isinstance(par.targets[0], ast.Name):
                 # `scope = CM(...)` followed by `with scope:` (the name is used for nothing else)
                 nm = par.targets[0].id
                 loads = [x for x in walk_no_nested(f.node) if isinstance(x, ast.Name) and x.id == nm and isinstance(x.ctx, ast.Load)]
@@ -365,6 +371,9 @@ def r6(p, rep, parts=("reads-only", "leaves")):
                             stack += [c.left, c.right]
                         elif isinstance(c, ast.Tuple):
                             stack += list(c.elts)
+                        elif isinstance(c, ast.Name) and any(isinstance(st, ast.Assign) and len(st.targets) == 1 and isinstance(st.targets[0], ast.Name) and st.targets[0].id == c.id and isinstance(st.value, (ast.Tuple, ast.BinOp)) for st in f.module.tree.body):
+                            # a module-level tuple of classes (`_SEQUENCE_TYPES = (list, tuple)`)
+                            stack += [st.value for st in f.module.tree.body if isinstance(st, ast.Assign) and len(st.targets) == 1 and isinstance(st.targets[0], ast.Name) and st.targets[0].id == c.id]
                         else:
                             classes.add(norm(c).split(".")[-1])
             n_arms += 1
@@ -412,7 +421,7 @@ def _constructs_objects(p, g, depth=0, seen=None):
 
 
 def r8(p, rep):
-    rep.rule("C06.R8", "functools caches are only put on functions whose results have no identity of their own: a memoised function that builds expression-tree / tracer objects hands ONE object to unrelated callers (the solvers key by id())", "T-EFF (who is memoised) + construction reachability", floor=2)
+    rep.rule("C06.R8", "functools caches are only put on functions whose results have no identity of their own: a memoised function that builds expression-tree / tracer objects hands ONE object to unrelated callers (the solvers key by id())", "T-EFF (who is memoised) + construction reachability", floor=1)
     owner = p.module("util.lru_cache")
 
     def is_memo(e, m, scope):
